@@ -21,7 +21,10 @@ theorem c10_tables :
     Gen.unaryOperators = [(Gen.minusMarker, .neg), ("~", .inv)] ∧
     lookup Gen.minusMarker Gen.precedenceLevels = some 6 ∧ lookup "~" Gen.precedenceLevels = some 6 ∧
     IsName "sizeof" ∧ ¬ IsName Gen.minusMarker := by
-  sorry
+  refine ⟨by decide, ?_, by decide, by decide, by decide, by decide, by decide⟩
+  intro t o k h
+  have hf := Lemmas.binFacts h
+  exact ⟨hf.prec, Nat.lt_succ_of_le hf.le5⟩
 
 /-- **C10, evaluation.** Every token sequence of the C grammar evaluates — through the in-place minus
     rewriting and the shunting-yard loop, exactly as `Expression.evaluate` runs them — to the value of its
@@ -30,7 +33,7 @@ theorem c10_tables :
 theorem c10_eval_correct (env : Env) (henv : EnvOk env) {raw marked : List String} {v : Int}
     (h : D env 0 raw marked v) :
     (Obj.evaluate ⟨raw⟩ env).2 = .ok v ∧ (Obj.evaluate ⟨raw⟩ env).1.tokens = marked := by
-  sorry
+  exact Lemmas.eval_correct env henv h
 
 /-- **C10, repeatability.** Evaluating the same object again, with the same or a different context, gives
     what a fresh object gives — for *every* token list, well-formed or not: the only state that survives a call
@@ -38,13 +41,13 @@ theorem c10_eval_correct (env : Env) (henv : EnvOk env) {raw marked : List Strin
 theorem c10_repeat (o : Obj) (env1 env2 : Env) :
     ((o.evaluate env1).1.evaluate env2).2 = (o.evaluate env2).2 ∧
     ((o.evaluate env1).1.evaluate env2).1 = (o.evaluate env1).1 := by
-  sorry
+  exact Lemmas.repeat_ o env1 env2
 
 /-- `/` and `%` (Python floor semantics in the code) are C's truncating `/` and `%` whenever both operands are
     non-negative — the domain in which the property prescribes them. -/
 theorem c10_div_mod_nonneg (a b : Int) (ha : 0 ≤ a) (hb : 0 < b) :
     binop .floordiv a b = .ok (Int.tdiv a b) ∧ binop .mod a b = .ok (Int.tmod a b) := by
-  sorry
+  exact Lemmas.div_mod_nonneg a b ha hb
 
 /-- Literal tokens denote their C value: hexadecimal, binary and octal (as the tokenizer hands them on, i.e.
     `0o…` for a C literal with a leading 0) by prefix, decimal otherwise. -/
@@ -57,7 +60,7 @@ theorem c10_literals (ds : List Nat) (hne : ds ≠ []) :
         parseInt (String.ofList ('0' :: 'o' :: ds.map digitChar)) = some (Int.ofNat (ofDigits 8 ds))) ∧
     ((∀ d ∈ ds, d < 10) → ds.head? ≠ some 0 →
         parseInt (String.ofList (ds.map digitChar)) = some (Int.ofNat (ofDigits 10 ds))) := by
-  sorry
+  exact Lemmas.literals ds hne
 
 /-- The tokenizer turns a C octal literal (leading `0`) into Python's `0o` spelling and drops `u`/`l` suffixes. -/
 theorem c10_tokenize_octal_suffix :
@@ -72,8 +75,13 @@ def env0 : Env := { ctx := [("n", 3)], consts := [("A", 8), ("n", 100)], sizeof 
 example : (Obj.evaluate ⟨["2", "*", "-", "n", "-", "-", "1"]⟩ env0).2 = .ok (-5) := by decide +kernel
 example : (Obj.evaluate ⟨["1", "|", "2", "+", "4", "*", "A", "<<", "1"]⟩ env0).2 = .ok 69 := by decide +kernel
 example : EnvOk env0 := by
-  sorry
+  exact Lemmas.envOk_of_keys (by decide) (by decide)
 example : D env0 0 ["-", "n", "-", "1"] [Gen.minusMarker, "n", "-", "1"] (-4) := by
-  sorry
+  have hn : D env0 6 ["n"] ["n"] 3 := .up (by decide) (.atom (.ctx (by decide) (by decide)))
+  have h1 : D env0 5 ["1"] ["1"] 1 := .up (by decide) (.up (by decide) (.atom (.lit (by decide) (by decide))))
+  have hl : D env0 4 ["-", "n"] [Gen.minusMarker, "n"] (-3) := .up (by decide) (.up (by decide) (.neg hn))
+  have hb : D env0 4 (["-", "n"] ++ "-" :: ["1"]) ([Gen.minusMarker, "n"] ++ "-" :: ["1"]) (-4) :=
+    .bin (o := .sub) (by decide) hl h1 (by decide)
+  exact .up (by decide) (.up (by decide) (.up (by decide) (.up (by decide) hb)))
 
 end Cstruct.Expr.C10
